@@ -299,6 +299,19 @@ func worker(prop string, scenarios []Scenario) {
 	var cur *Ctx
 	stop := make(chan os.Signal, 1)
 	signal.Notify(stop, syscall.SIGTERM)
+	// the polite stop is honoured between two executions; an execution that does not end (it
+	// should not: every execution has a step budget) must not keep the process alive
+	hard := make(chan os.Signal, 1)
+	signal.Notify(hard, syscall.SIGTERM)
+	go func() {
+		<-hard
+		time.Sleep(8 * time.Second)
+		os.Exit(4)
+	}()
+	maxSteps := s.MaxSteps
+	if maxSteps == 0 {
+		maxSteps = 400000
+	}
 	deadline := time.Time{}
 	if *fDeadline > 0 {
 		deadline = time.Unix(*fDeadline, 0)
@@ -314,7 +327,7 @@ func worker(prop string, scenarios []Scenario) {
 		}
 	}
 	reportedKnown := map[string]bool{}
-	res := vrt.Explore(ph.Bound, s.MaxSteps, *fShard, *fNShards, deadline, func() {
+	res := vrt.Explore(ph.Bound, maxSteps, *fShard, *fNShards, deadline, func() {
 		// body wrapper: runOne is not used here because Explore owns the Run call
 		cur = &Ctx{cnt: map[string]int{}}
 		base := fmt.Sprintf("%s/verif-e3-%d", mc.ShmBase(), os.Getpid())
@@ -655,6 +668,9 @@ func trunc(s string, n int) string {
 	return s
 }
 
+// freeHang: how long one free-running driver body (normally milliseconds) may take before it is declared stuck.
+const freeHang = 3 * time.Minute
+
 // FreeSummary is what the free-running pass leaves for the explorer parent.
 type FreeSummary struct {
 	Iterations int                       `json:"iterations_per_scenario"`
@@ -680,7 +696,9 @@ func freeRun(prop string, scenarios []Scenario) {
 			c := &Ctx{cnt: map[string]int{}}
 			c.Dir = fmt.Sprintf("%s/%d", base, i)
 			os.MkdirAll(c.Dir, 0o755)
-			func() {
+			done := make(chan struct{})
+			go func() {
+				defer close(done)
 				defer func() {
 					if e := recover(); e != nil {
 						c.Fail("panic", "panic: %v", e)
@@ -688,6 +706,20 @@ func freeRun(prop string, scenarios []Scenario) {
 				}()
 				s.Body(c)
 			}()
+			select {
+			case <-done:
+			case <-time.After(freeHang):
+				// a body takes milliseconds; one that has not returned after minutes is stuck (Close
+				// never returning, a deadlock between real goroutines). Nothing can be salvaged in
+				// this process: report what was seen so far and stop the pass.
+				sum.Failures = append(sum.Failures, fmt.Sprintf("%s: hang: the driver body did not return within %s when run free (a call never returns: deadlock or endless loop)", s.Name, freeHang))
+				b, _ := json.MarshalIndent(sum, "", " ")
+				if *fFreeOut != "" {
+					os.WriteFile(*fFreeOut, b, 0o644)
+				}
+				fmt.Printf("free-running pass: stopped, scenario %s hangs\n", s.Name)
+				os.Exit(0)
+			}
 			os.RemoveAll(c.Dir)
 			sum.Outcomes[s.Name][strings.Join(c.obs, "|")]++
 			if c.fail != "" {
@@ -717,24 +749,58 @@ func supplementary(r *mc.Run, prop string) map[string]map[string]int {
 	}
 	var sum FreeSummary
 	json.Unmarshal(b, &sum)
-	races := 0
+	races, harnessRaces := 0, 0
 	if lp := os.Getenv("VERIF_RACE_LOG"); lp != "" {
 		ms, _ := filepath.Glob(lp + "*")
 		for _, m := range ms {
 			lb, _ := os.ReadFile(m)
-			n := strings.Count(string(lb), "WARNING: DATA RACE")
-			if n > 0 {
-				races += n
-				site := raceSite(string(lb))
-				r.Violation("data-race:"+site, fmt.Sprintf("the free-running -race pass over the same driver bodies reported %d data race(s); first: %s", n, firstLines(string(lb), 30)), map[string]any{"race_log": string(lb)})
+			// one report = the text between two "==================" lines; a report whose two
+			// conflicting accesses are both made by harness code (innermost frame in verif/…) is a
+			// bug of the harness, not of the code under test: it is counted and shown, never filed
+			// as a violation of the property
+			bySite := map[string][]string{}
+			for _, rep := range strings.Split(string(lb), "==================") {
+				if !strings.Contains(rep, "WARNING: DATA RACE") {
+					continue
+				}
+				if raceInHarness(rep) {
+					harnessRaces++
+					fmt.Fprintln(os.Stderr, "harness: data race between two harness accesses (ignored for the verdict):", firstLines(strings.TrimSpace(rep), 12))
+					continue
+				}
+				races++
+				site := raceSite(rep)
+				bySite[site] = append(bySite[site], rep)
+			}
+			for site, reps := range bySite {
+				r.Violation("data-race:"+site, fmt.Sprintf("the free-running -race pass over the same driver bodies reported %d data race(s) at this site; first: %s", len(reps), firstLines(strings.TrimSpace(reps[0]), 30)), map[string]any{"race_log": strings.Join(reps, "==================")})
 			}
 		}
 	}
 	for _, f := range sum.Failures {
 		r.Violation("free-running:"+strings.SplitN(strings.SplitN(f, ": ", 3)[1], " ", 2)[0], "free-running pass: "+f, map[string]any{"failure": f})
 	}
-	r.Note("supplementary_race_pass", map[string]any{"technique": "free-running execution of the same driver bodies, un-instrumented, built with -race (sampling; NOT the deciding method)", "scenarios": sum.Scenarios, "iterations_per_scenario": sum.Iterations, "data_races_reported": races, "contract_failures": len(sum.Failures)})
+	r.Note("supplementary_race_pass", map[string]any{"technique": "free-running execution of the same driver bodies, un-instrumented, built with -race (sampling; NOT the deciding method)", "scenarios": sum.Scenarios, "iterations_per_scenario": sum.Iterations, "data_races_reported": races, "races_between_harness_accesses_ignored": harnessRaces, "contract_failures": len(sum.Failures)})
 	return sum.Outcomes
+}
+
+// raceInHarness: both conflicting accesses of a race report have their innermost frame in harness code.
+func raceInHarness(rep string) bool {
+	lines := strings.Split(rep, "\n")
+	tops := 0
+	harness := 0
+	for i, l := range lines {
+		t := strings.TrimSpace(l)
+		if (strings.Contains(t, " at 0x") && strings.Contains(t, " by ")) && (strings.HasPrefix(t, "Read") || strings.HasPrefix(t, "Write") || strings.HasPrefix(t, "Previous") || strings.HasPrefix(t, "Atomic")) {
+			if i+1 < len(lines) {
+				tops++
+				if strings.HasPrefix(strings.TrimSpace(lines[i+1]), "verif/") {
+					harness++
+				}
+			}
+		}
+	}
+	return tops >= 2 && harness == tops
 }
 
 func raceSite(log string) string {
